@@ -17,11 +17,57 @@ type BigCase struct {
 	Kind   string `json:"kind"` // LineString | LinearRing | Polygon | MultiPoint | MultiLineString | MultiPolygon
 	Layout int    `json:"layout"`
 	N      int    `json:"n"`
+	// Parts > 0: a geometry of that many parts (rings in all, for the polygon kinds) of
+	// zero or one coordinate each instead of N coordinates; Pattern picks how many rings
+	// the polygons of a MultiPolygon have in turn.
+	Parts   int `json:"parts,omitempty"`
+	Pattern int `json:"pattern,omitempty"`
+}
+
+var ringPatterns = [][]int{{1, 2, 3}, {2}, {1, 1, 4}, {3, 0, 1}}
+
+// buildParts builds a geometry of c.Parts parts: part i has one coordinate, or none
+// when i%5 == 2.
+func buildParts(c BigCase) (geom.T, []float64, error) {
+	l := geom.Layout(c.Layout)
+	s := l.Stride()
+	var flat []float64
+	var ends []int
+	for i := 0; i < c.Parts; i++ {
+		if i%5 != 2 {
+			for d := 0; d < s; d++ {
+				flat = append(flat, bigOrdinate(len(flat)))
+			}
+		}
+		ends = append(ends, len(flat))
+	}
+	keep := append([]float64(nil), flat...)
+	switch c.Kind {
+	case "Polygon":
+		return geom.NewPolygonFlat(l, flat, ends), keep, nil
+	case "MultiPoint":
+		return geom.NewMultiPointFlat(l, flat, geom.NewMultiPointFlatOptionWithEnds(ends)), keep, nil
+	case "MultiLineString":
+		return geom.NewMultiLineStringFlat(l, flat, ends), keep, nil
+	case "MultiPolygon":
+		pat := ringPatterns[c.Pattern%len(ringPatterns)]
+		var endss [][]int
+		for i, k := 0, 0; i < len(ends); k++ {
+			n := min(pat[k%len(pat)], len(ends)-i)
+			endss = append(endss, append([]int{}, ends[i:i+n]...))
+			i += n
+		}
+		return geom.NewMultiPolygonFlat(l, flat, endss), keep, nil
+	}
+	return nil, nil, fmt.Errorf("bad kind %q for parts", c.Kind)
 }
 
 func bigOrdinate(i int) float64 { return float64(i%99991) + 0.25*float64(i%4) }
 
 func buildBig(c BigCase) (geom.T, []float64, error) {
+	if c.Parts > 0 {
+		return buildParts(c)
+	}
 	l := geom.Layout(c.Layout)
 	s := l.Stride()
 	flat := make([]float64, c.N*s)
@@ -104,6 +150,9 @@ func propBig(c BigCase) error {
 }
 
 var bigSpec = run.Spec[BigCase]{ID: "C16", Name: "bigclone", Prop: propBig, Classify: func(c BigCase) ([]string, bool) {
+	if c.Parts > 0 {
+		return []string{"parts:" + c.Kind, fmt.Sprintf("parts>=2^%d", int(math.Log2(float64(c.Parts))))}, true
+	}
 	return []string{"big:" + c.Kind, fmt.Sprintf("big-ordinates>2^%d", int(math.Log2(float64(c.N*geom.Layout(c.Layout).Stride()))))}, true
 }}
 
@@ -162,6 +211,44 @@ func TestExhaustiveSizes(t *testing.T) {
 		ev.Default.CaseHash(uint64(n)|1<<40, "size-sweep", true, func() any { return c })
 		if !run.One(t, bigSpec, c) {
 			return
+		}
+	}
+}
+
+// TestExhaustiveParts clones geometries of many parts: every number of parts (rings in
+// all) within three of each power of two from 256 to 16 384 (thorough: 131 072), and
+// every number from 1 to 300 - polygons of that many rings, multi-points and multi-line
+// strings of that many members, multi-polygons whose polygons have 1,2,3 / 2 / 1,1,4 /
+// 3,0,1 rings in turn, so that a polygon's rings lie across the count in question.
+func TestExhaustiveParts(t *testing.T) {
+	shard, shards := run.Shard()
+	top := 14
+	if run.Thorough() {
+		top = 17
+	}
+	var counts []int
+	for n := 1; n <= 300; n++ {
+		counts = append(counts, n)
+	}
+	for p := 9; p <= top; p++ {
+		for d := -3; d <= 3; d++ {
+			counts = append(counts, 1<<p+d)
+		}
+	}
+	kinds := []string{"Polygon", "MultiPoint", "MultiLineString", "MultiPolygon", "MultiPolygon", "MultiPolygon", "MultiPolygon"}
+	layouts := []geom.Layout{geom.XY, geom.XYZ, geom.XYZM}
+	k := 0
+	for _, n := range counts {
+		for ki, kind := range kinds {
+			k++
+			if k%shards != shard {
+				continue
+			}
+			c := BigCase{Kind: kind, Layout: int(layouts[(n+ki)%len(layouts)]), Parts: n, Pattern: ki}
+			ev.Default.CaseHash(uint64(n)|uint64(ki)<<32|1<<44, "parts-sweep", true, func() any { return c })
+			if !run.One(t, bigSpec, c) {
+				return
+			}
 		}
 	}
 }
